@@ -35,6 +35,9 @@ SITES = [
     dict(gen="Detect", name="segmentedRadialSampling", file=_DET, func="SegmentedDetector.radial_sampling", select=("return", 0),
          params_map={"self.outer": "outer", "self.inner": "inner", "self.nbins_radial": "nb"}, params=["inner", "outer", "nb"],
          modes=["rat"]),
+    # AnnularDetector._calculate_new_array passes its own offset on (fix 4901abf9)
+    dict(gen="Detect", name="annularDetectOffset", file=_DET, func="AnnularDetector._calculate_new_array", select=("kwarg", "offset", 0),
+         params_map={"self.offset": "offset"}, params=["offset"], param_types={"offset": "Rat × Rat"}, ret="Rat × Rat", modes=["rat"]),
 ]
 FINGERPRINTS = {
     "_annular_detector_mask": (_MEA, "_annular_detector_mask"),
